@@ -203,8 +203,11 @@ def coq_eval_codes(prop, imports, defs, exprs, chunk=150, timeout=600, tag="case
 
 # ------------------------------------------------------------------ implementation runner
 LOG_DEFS = ":- dynamic(logged/1).\nlog(T) :- assertz(logged(T)).\n"
-# answers are passed through an encoder so that improper lists and cyclic terms never reach vrun's term conversion
-ENC_DEFS = """vsld_enc0(T, E) :- ( acyclic_term(T) -> vsld_enc(T, E) ; E = '$cyclic' ).
+# answers are passed through an encoder (ground, no lists) so that variables, improper lists and cyclic terms never reach
+# vrun's term conversion, which panics on some of them
+ENC_DEFS = """vsld_enc0(T, E) :- ( acyclic_term(T) -> copy_term(T, C), term_variables(C, Vs), vsld_num(Vs, 0), vsld_enc(C, E) ; E = '$cyclic' ).
+vsld_num([], _).
+vsld_num(['$v'(N)|Vs], N) :- N1 is N + 1, vsld_num(Vs, N1).
 vsld_enc(T, E) :- var(T), !, E = T.
 vsld_enc([H|T], E) :- !, E = '$cons'(EH, ET), vsld_enc(H, EH), vsld_enc(T, ET).
 vsld_enc(T, E) :- compound(T), !, T =.. [F|As], vsld_encl(As, Es), E =.. [F|Es].
@@ -216,6 +219,8 @@ vsld_encl([A|As], [E|Es]) :- vsld_enc(A, E), vsld_encl(As, Es).
 
 def decode(t):
     if t[0] == "cmp":
+        if t[1] == "$v" and len(t[2]) == 1 and t[2][0][0] == "int":
+            return ("var", t[2][0][1])
         if t[1] == "$cons" and len(t[2]) == 2:
             return ("cmp", ".", [decode(t[2][0]), decode(t[2][1])])
         return ("cmp", t[1], [decode(x) for x in t[2]])
@@ -372,13 +377,16 @@ class ProgGen:
         self.helpers = []
         if feats.get("rec"):
             self.helpers = [(pfx + "app", 3), (pfx + "mem", 2), (pfx + "len", 2)]
+        # single-character atoms inside lists are stored as compact strings by the implementation (a different head-unification
+        # path, on which it panics for some heap layouts): used in a minority of the programs
+        self.atoms = ATOMS if rng.random() < 0.15 else ["aa", "bq", "cz", "[]"]
         self.est = {}     # pred name -> (answers bound, work bound)
         self.ncut_cond = 0
 
     # ---- terms
     def const(self):
         r = self.rng
-        return A(r.choice(ATOMS)) if r.random() < 0.5 else I(r.choice(INTS))
+        return A(r.choice(self.atoms)) if r.random() < 0.5 else I(r.choice(INTS))
 
     def var(self, vs):
         return V(self.rng.choice(vs))
@@ -577,7 +585,7 @@ class ProgGen:
         if first:
             # shapes the first-argument indexing distinguishes
             y = r.random()
-            if y < 0.3: return A(r.choice(ATOMS))
+            if y < 0.3: return A(r.choice(self.atoms))
             if y < 0.55: return I(r.choice(INTS))
             if y < 0.8: return L([self.var(vs)], self.var(vs)) if r.random() < 0.6 else L([self.term(vs, 1) for _ in range(r.choice([0, 1, 2]))])
             return C(r.choice(["f", "g"]), self.var(vs)) if r.random() < 0.5 else C("g", self.term(vs, 1), self.var(vs))
